@@ -7,6 +7,7 @@
 From Coq Require Import List Bool ZArith Lia.
 Import ListNotations.
 From Rosed Require Import Base.ListX Gem.Segment Gem.GString Model.Tb Model.Manip Model.Table Proofs.SeamP Proofs.C13P Proofs.C16P Proofs.C16Q Proofs.C16R.
+From Rosed Require Import Proofs.C16S.
 Open Scope Z_scope.
 
 (* the surplus width is distributed exactly: quotient to each of the first n columns, one more to the first (s mod n) *)
@@ -57,3 +58,23 @@ Theorem C16_no_cells : forall (C : Classifier) (U : Upper) data width sep header
   Forall (fun r => r = []) data -> b_lines (make_table data width sep header border charSet) = [].
 Proof. intros C U. exact make_table_empty_rows. Qed.
 Print Assumptions C16_no_cells.
+
+(* the lines of a table, in order: top border; the first row, rendered as a header row when
+   headers are on; the rule after a header row (the border bar when borders are on and there is
+   more than one row, a run of the horizontal character without borders); the other rows in input
+   order; bottom border. row_line = the left border and the cells of one row (build_row) *)
+Theorem C16_rows_in_order : forall (C : Classifier) (U : Upper) (r0 : list gstr) rest ws width sep (header border : bool) cs,
+  let hbar : gstr := if border then cs_corner cs ++ horz_bar (cs_corner cs) (cs_horz cs) ws else [] in
+  let rule := if header then (if border then (if 1 <? zlen (r0 :: rest) then [hbar] else []) else [grepeat (cs_horz cs) width]) else [] in
+  b_lines (build_table (r0 :: rest) ws width sep header border cs) =
+  (if border then [hbar] else []) ++ [row_line cs ws header border r0] ++ rule ++ map (row_line cs ws false border) rest ++ (if border then [hbar] else []).
+Proof. intros C U. exact build_table_structure. Qed.
+Print Assumptions C16_rows_in_order.
+
+(* a header cell is the upper-cased cell: centred between borders, left-aligned without *)
+Theorem C16_header_cell : forall (C : Classifier) (U : Upper) cs row w ws col border,
+  build_row cs row (w :: ws) col true border =
+  (let h := upper_str (cell_at row col) in if border then gadd (align_center h w) (cs_vert cs) else align_left h w)
+  ++ build_row cs row ws (S col) true border.
+Proof. intros C U. exact header_cell. Qed.
+Print Assumptions C16_header_cell.
